@@ -205,7 +205,7 @@ var vfOwn = map[string]string{
 // VF_C01_own_imports: under every accepted alias table the packages the
 // template itself needs still resolve to themselves.
 func VF_C01_own_imports() {
-	a := vfStr("alias", vfBound("c01.alias", 7, 10))
+	a := vfStr("alias", vfBound("c01.alias", 7, 8))
 	p := "my/pkg"
 	ctor := "NewX"
 	g := "GetX"
